@@ -315,8 +315,8 @@ Definition has_type_b (p : fprog) : bool :=
 Definition has_type (p : fprog) : Prop := has_type_b p = true.
 
 (* ---------- classification of ill-formed declaration types (diagnostic only) ----------
-   The real checker looks only at the HEAD name of a type inside a data/codata declaration
-   (known finding C15-lazy-declaration-types).  [has_type_lax_b] is has_type_b with exactly that
+   Until fix <commit15> of /repo the real checker looked only at the HEAD name of a type inside a
+   data/codata declaration (former finding C15-lazy-declaration-types).  [has_type_lax_b] is has_type_b with exactly that
    weakening; [tty_defect] names the shape of the first defect of a declaration type. *)
 Definition head_ok (ts : list tdecl) (ps : list fname) (t : fty) : bool :=
   match t with
